@@ -354,7 +354,12 @@ def out_labels_and_targets(lines):
 
 
 def strip_labels(lines):
-    return [T.line_label(l)[1] for l in lines]
+    """the lines without their labels; empty lines at the end do not count (the bank strips the end of a procedure,
+    so a last line that holds only a label disappears with it)"""
+    out = [T.line_label(l)[1] for l in lines]
+    while out and out[-1].strip() == "":
+        out.pop()
+    return out
 
 
 # --------------------------------------------------------------------------- C06
